@@ -13,4 +13,21 @@ TEXTS = {
              "extraction + 40-line OCaml driver audited by in-kernel vm_compute; Rust harness.",
         technique="Coq proof by induction (binary-counter invariant = split tree = level-by-level tree) + per-run model/implementation correspondence",
     ),
+    "C15": dict(
+        text="Kernel-checked theorems over abstract tagged hashes and an abstract secp256k1 oracle, for every script tree (leaves, hidden nodes) of height <= 128: "
+             "the eager-combine builder fed the depth-first walk ends in the tree's sorted-pair merkle root with every leaf's sibling path (C15_builder_sound), only such "
+             "walks finalize (C15_builder_complete), every leaf's control block verifies, has length 33+32*depth and survives from_slice/serialize (C15_cb_verifies), fails "
+             "with the other parity or another output key (C15_cb_wrong_parity_or_key), anything that verifies is a leaf of the tree or an explicit hash collision "
+             "(C15_cb_binding), the output key is the internal key tweaked by H_TapTweak(internal||root) and the tweaked key pair is its secret (C15_output_key, "
+             "C15_keypair), Huffman construction keeps exactly the input leaves and never panics (C15_huffman_shape) and never puts a heavier leaf deeper when the weight "
+             "sum does not saturate (C15_huffman_order). The model is tied to the code on every run by executing both on exhaustive and random depth sequences, "
+             "chains around depth 128, control-block byte strings and Huffman weight vectors with the real tagged SHA-256; the harness also evaluates the property on the "
+             "implementation against its own independent tree/tagged-hash computation.",
+        design_ref="DESIGN.md section 6, C15; notes/C15.md",
+        note="Trusted: Coq kernel; hand-written Gallina model of taproot.rs/schnorr.rs (builder loop, NodeInfo::combine, script map, control block codec, "
+             "verify_taproot_commitment, with_huffman_tree as multiset extract-max); secp256k1 as an oracle with stated premises; translator for constants and tag "
+             "strings; extraction + OCaml driver audited by in-kernel vm_compute; Rust harness. Findings re-derived: F9 (leaves held in reverse DFS order, proved; does not "
+             "affect any C15 observable), F16 (finalize on a serde-only state panics; C10).",
+        technique="Coq proof (restart lemma for the eager-combine loop, collision extraction, exchange-free Huffman depth-order invariant) + per-run model/implementation correspondence",
+    ),
 }
